@@ -74,6 +74,23 @@ Box::~Box() {
 }
 int Box::value() const { Guard g; return m_value; }
 
+// ---------------------------------------------------------------- Holder<T> (see simlib.hpp)
+int holder_born(const void *p, int v, const char *kind) {
+    Guard g;
+    int id = g_next_id++;
+    sim_obj_born(id, p);
+    sim_obj_value(id, v);
+    sim_event("ctor id=%d v=%d %s", id, v, kind);
+    return id;
+}
+void holder_died(int id, int v, bool ok, const char *kind) {
+    Guard g;
+    if (!ok) sim_event("BADMAGIC dtor %s id=%d (destructor of another type)", kind, id);
+    sim_event("dtor id=%d v=%d %s", id, v, kind);
+    sim_obj_died(id);
+}
+void holder_value(int id, int v) { Guard g; sim_obj_value(id, v); }
+
 // ---------------------------------------------------------------- factories
 Item *makeItem(int v) { Guard g; return new Item(v); }
 Item *borrowItem() {
@@ -171,8 +188,9 @@ int *arrNewPat(int n, int *len) {
 }
 void arrFillOut(int n, double *out) { Guard g; for (int i = 0; i <= n; i++) out[i] = 0.5 * i; }
 int arrSum(const int *arr, int n) { Guard g; int s = 0; for (int i = 0; i < n; i++) s += arr[i]; return s + 1000000 * n; }
+void arrWeights(int *values, int nvalues, const int *weights, int nweights) { Guard g; for (int i = 0; i < nvalues; i++) values[i] *= (nweights > 0 ? weights[i % nweights] : 1); }
 void charGrow(char *s) { Guard g; std::strcat(s, "!!"); }
-int charArrLen(char **names, int n) { Guard g; int t = 0; for (int i = 0; i < n; i++) if (names[i]) t += static_cast<int>(std::strlen(names[i])) + 100; return t; }
+int charArrLen(char **names, int n) { Guard g; int t = 0; for (int i = 0; i < n; i++) { if (names[i]) t += static_cast<int>(std::strlen(names[i])) + 100; else t += 50; } return t; }
 Item &refItem() { Guard g; return *borrowItem(); }
 std::vector<double> vecRetD(int n) { Guard g; std::vector<double> v; for (int i = 0; i < n; i++) v.push_back(0.25 + i); return v; }
 
